@@ -36,6 +36,9 @@ type replayCase struct {
 	Mixed bool  `json:"mixed,omitempty"`
 	Pos   []int `json:"pos,omitempty"`
 	Seed  int   `json:"seed,omitempty"` // tuple index (selects the filler values of the other parameters)
+	// sibling family: module(Op, layout L1) built over the layout set Lays; Pos[0] = function index, Seed = tuple index
+	L1   int   `json:"l1,omitempty"`
+	Lays []int `json:"lays,omitempty"`
 }
 
 func toReplay(m mismatch, t Tuple, n int) replayCase {
@@ -80,6 +83,9 @@ func doReplay(path string, ops []*rs.Op) {
 	}
 	if rc.Form == "chain" || rc.Form == "raw" {
 		replayChain(rc, op, ops)
+	}
+	if rc.Form == "sibling" {
+		replaySibling(rc, op, ops)
 	}
 	if rc.Op2 != "" {
 		replayPair(rc, op, ops)
@@ -325,6 +331,70 @@ func main() {
 				"reference": []string{wantString(a.op, a.exp[0]), wantString(b.op, b.exp[0])}})
 		}
 	}
+	// ---- sibling functions of one module (compiler state surviving the per-function reset)
+	sibStats := map[string]int64{}
+	if only == "" || os.Getenv("C05_SIBLINGS") != "" {
+		pops := buildPairOps(ops)
+		heads := pops
+		if only != "" {
+			heads = nil
+			for _, p := range pops {
+				if strings.Contains(p.op.Name, only) {
+					heads = append(heads, p)
+				}
+			}
+		}
+		lays := sibLayoutSet(run.Thorough())
+		type sibTask struct {
+			a  *pairOp
+			l1 int
+		}
+		var tasks []sibTask
+		for _, a := range heads {
+			for _, l1 := range lays {
+				tasks = append(tasks, sibTask{a, l1})
+			}
+		}
+		sibStats["instructions"] = int64(len(pops))
+		sibStats["layouts"] = int64(len(lays))
+		sibStats["modules"] = int64(len(tasks))
+		fw.Parallel(len(tasks), nw, func(i int) {
+			if run.Expired() {
+				run.Capped("budget (sibling functions)")
+				return
+			}
+			w := <-pool
+			defer func() { pool <- w }()
+			tk := tasks[i]
+			calls, nf := w.runSiblings(tk.a, tk.l1, lays, pops, -1, st, func(sm sibMismatch) {
+				rc := replayCase{Op: tk.a.op.Name, Engine: engineNames[sm.engine], Form: "sibling", Got: sm.got, Want: sm.want, L1: tk.l1, Lays: lays, Pos: []int{sm.f}, Seed: sm.it}
+				if sm.f >= 0 {
+					fn := sm.fns[sm.f]
+					rc.Op2 = fn.p.op.Name
+					t := fn.p.tuples[sm.it]
+					for k := range fn.p.op.In {
+						rc.Operands = append(rc.Operands, [2]string{fmt.Sprintf("%#x", t[k].Lo), fmt.Sprintf("%#x", t[k].Hi)})
+					}
+				}
+				run.Violation(sm.sig(), sm.text(), rc)
+				outcomes.Inc("mismatch")
+			})
+			mu.Lock()
+			sibStats["functions"] += nf
+			sibStats["adjacent_function_pairs"] += nf - 1
+			sibStats["function_executions"] += calls
+			// every (module, function position, tuple) is a distinct case by construction
+			distinct += calls / 2
+			nontriv += calls / 2
+			formsSeen["sibling"] += calls
+			mu.Unlock()
+		})
+		if len(pops) > 2 {
+			a, b := pops[len(pops)/4], pops[3*len(pops)/4]
+			samples.Add(map[string]any{"sibling_functions": []string{a.op.Name + "@" + sibLayouts[lays[0]].name, b.op.Name + "@" + sibLayouts[lays[len(lays)-1]].name},
+				"operands_later_function": fmtIn(b.op, b.tuples[0]), "reference": wantString(b.op, b.exp[0])})
+		}
+	}
 	// ---- consumer chains (upper half of 64-bit slots) and raw host-API results
 	chainStats := map[string]int64{}
 	var rawUpperOps [2][]string
@@ -358,6 +428,9 @@ func main() {
 					cname = cm.c.name
 				}
 				sig := fmt.Sprintf("%s:%s→%s:%s", form, cm.p.op.Name, cname, engineNames[cm.engine])
+				if cm.class != "" {
+					sig = fmt.Sprintf("chain:%s:%s:%s", cm.p.op.Name, engineNames[cm.engine], cm.class)
+				}
 				rc := replayCase{Op: cm.p.op.Name, Op2: cname, Engine: engineNames[cm.engine], Form: form, Got: cm.got, Want: cm.want}
 				if len(cm.p.tuples) > cm.it {
 					t := cm.p.tuples[cm.it]
@@ -553,6 +626,7 @@ func main() {
 		"chunk":                     chunkN,
 	}
 	bounds["pairs_in_one_function"] = pairStats
+	bounds["sibling_functions"] = sibStats
 	bounds["consumer_chains"] = chainStats
 	bounds["register_positions"] = rpStats
 	bounds["register_position_arities"] = rpArities
@@ -583,7 +657,9 @@ func main() {
 		"NaN results of arithmetic operators are accepted within the class the specification allows (canonical when all NaN inputs are canonical, else arithmetic); abs/neg/copysign/reinterpret/select/move/load/store/lane moves/pmin/pmax are compared bit-exactly",
 		"32/64-bit operands come from boundary alphabets (all pairs), not from the full domain; 8-bit lanes are exhaustive, 16-bit lanes exhaustive for unary and grid all-pairs for binary operators",
 		"memory instructions (v128.loadNxM, load_splat, load_lane, store_lane) are not numeric instructions and are left to C02/C01; plain loads/stores are exercised as operand sources and result sinks",
-		"pair family: per-function compiler state shared by TWO numeric instructions is covered for every ordered pair of 355 instruction representatives; state shared only among three or more instructions, or across functions of a module in a way that needs a particular function order, is not",
+		"pair family: per-function compiler state shared by TWO numeric instructions is covered for every ordered pair of 355 instruction representatives; state shared only among three or more instructions is not",
+		"sibling family: compiler state surviving the per-function reset is covered for one-instruction functions (plus 0-2 v128.const pool entries before / after the instruction) in every ordered adjacency of two instruction representatives and layouts; functions with several numeric instructions as siblings are not enumerated",
+		"a Go panic of wazero during compile / instantiate / call is recovered at the call site and reported as a violation of the family's module (signature names the panic site)",
 		"amd64 only (the machine this runs on); the arm64 backend is not exercised",
 	})
 }
@@ -656,6 +732,45 @@ func replayChain(rc replayCase, p *rs.Op, ops []*rs.Op) {
 	w.runChains(&chainProducer{op: p, tuples: []Tuple{t}, exp: []rs.Res{r}}, buildConsumers(ops), &stats{}, func(cm chainMismatch) {
 		fmt.Println("  MISMATCH:", cm.text())
 		if rc.Engine == "" || rc.Engine == engineNames[cm.engine] {
+			failed = true
+		}
+	})
+	if failed {
+		fmt.Println("replay: still fails")
+		os.Exit(1)
+	}
+	fmt.Println("replay: both engines agree with the reference")
+	os.Exit(0)
+}
+
+// replaySibling rebuilds module(a, L1) over the recorded layout set and re-executes the recorded function.
+func replaySibling(rc replayCase, a *rs.Op, ops []*rs.Op) {
+	pops := buildPairOps(ops)
+	var pa *pairOp
+	for _, p := range pops {
+		if p.op == a {
+			pa = p
+		}
+	}
+	if pa == nil || len(rc.Lays) == 0 || len(rc.Pos) != 1 {
+		fw.Fatalf("replay: bad sibling case")
+	}
+	fns := sibSequence(pa, rc.L1, rc.Lays, pops)
+	if rc.Pos[0] >= len(fns) {
+		fw.Fatalf("replay: bad sibling function index")
+	}
+	if rc.Pos[0] >= 0 {
+		fmt.Printf("replay sibling functions: module of %d functions starting with %s; executing function #%d = %s on its %d operand tuples\n",
+			len(fns), sibName(fns[0]), rc.Pos[0], sibName(fns[rc.Pos[0]]), len(fns[rc.Pos[0]].p.tuples))
+	} else {
+		fmt.Printf("replay sibling functions: module of %d functions starting with %s; executing every function\n", len(fns), sibName(fns[0]))
+	}
+	w := newWorker()
+	defer w.close()
+	failed := false
+	w.runSiblings(pa, rc.L1, rc.Lays, pops, rc.Pos[0], &stats{}, func(sm sibMismatch) {
+		fmt.Println("  MISMATCH:", sm.text())
+		if rc.Engine == "" || rc.Engine == engineNames[sm.engine] {
 			failed = true
 		}
 	})
